@@ -35,6 +35,11 @@ CLAIMED = {
     text="Histories of specs/ArrayOps.tla (every constructor form, copy, move, assignment with equal and different extents, reextent in all three overloads, clear, swap, reshape, assign, destruction) are executed on arrays of a tracked element type over a ledger allocator; every allocate/deallocate/construct/assign/destroy event the library performs is recorded and stepped through the TLA+ monitor specs/Lifecycle.tla, which evaluates at every event ConstructOnRaw, UseOnAlive, DestroyOnAlive, DeallocExact (size, allocator, no live elements) and at the end of every operation HandleConsistent and NoLeak; element values are compared with the specification as in C04; a second run over int with pattern-filled storage demands that elements left unspecified by sizing constructors and reextent were not written.",
     note="bounded: D 1..2 (3 in thorough), extents 0..3, histories of <= 3 operations over 2 arrays (about 3 million events in the quick tier); serialization-load histories are exercised by C17; trusted: the tracked type/allocator report faithfully.",
     ref="DESIGN.md section 5 C08", tech="TLA+ trace monitor (Lifecycle.tla) validating event traces recorded from the implementation on TLC-generated histories"),
+ "C09": dict(
+    cat="fault_enumeration",
+    text="For every history of specs/ArrayOps.tla within the bounds and every injection point k of its last operation (the k-th allocation, element construction or element assignment, counted on a fault-free run), the history is re-executed with that point throwing (bad_alloc from the ledger allocator, an exception from the tracked element); the recorded events, the state of every array at the end of the failed operation, a probe sequence (read all, copy-assign a fresh array, destroy) and the final state are validated by the TLA+ monitor specs/Lifecycle.tla: NoLeak, HandleConsistent, DestroyOnAlive/DeallocExact (nothing twice), ReachesCaller (no std::terminate), and NoAllocWhenNotNeeded for same-extent assignment, assignment through views, swap, move, clear.",
+    note="single fault per history, exhaustive over the injection points of the last operation (every prefix is itself a history); D 1..2 (3 in thorough), extents 0..2; one open finding (rollback of the iterator-pair constructor for D>=2) is listed in known_findings.txt.",
+    ref="DESIGN.md section 5 C09", tech="exhaustive single-fault injection on TLC-generated histories; traces validated by the TLA+ monitor Lifecycle.tla"),
 }
 
 props = [json.loads(l) for l in open(os.path.join(V, "properties.jsonl"))]
